@@ -13,10 +13,11 @@ from __future__ import annotations
 import heapq
 import json
 import math
+import os
 
 import numpy as np
 
-from simkit import gen, launch, ref
+from simkit import gen, launch, pipe, ref
 from simkit.kernel import EventLog, Forks, RunStats, Violation, digest, sub_rng
 
 REAL = ["batchie.retrospective: SparseCoverPlateGenerator, PairwisePlateGenerator, PlatePermutationPlateGenerator, "
@@ -28,7 +29,7 @@ REAL = ["batchie.retrospective: SparseCoverPlateGenerator, PairwisePlateGenerato
 STUB = ["none: in-process function calls; no files"]
 
 SPEC = {
-    "C11": dict(engine="prepsim", level="exploration", runs=dict(quick=2500, thorough=60000), chunk=20,
+    "C11": dict(engine="prepsim", level="exploration", runs=dict(quick=2500, thorough=24000), chunk=20,
                 rule="seeded chains (1-6 operations) of generators / smoothers / cover / filter / reveal / mask / split on screens "
                      "with duplicate conditions, single-agent rows and observed + unobserved plates; every returning operation is "
                      "judged by multiset algebra against a snapshot of its input; non-trivial if a judged operation ran on the "
@@ -37,7 +38,7 @@ SPEC = {
                 real=REAL, stub=STUB,
                 assumptions=["operations that raise are not judged", "screens <= 60 rows",
                              "ceil(fraction x size) is evaluated in double arithmetic exactly as written in the statement"]),
-    "C13": dict(engine="prepsim", level="exploration", runs=dict(quick=2500, thorough=60000), chunk=20,
+    "C13": dict(engine="prepsim", level="exploration", runs=dict(quick=2500, thorough=24000), chunk=20,
                 rule="same chains as C11, biased to the corners the statement names (several samples at or below the size limit, "
                      "one plate, many plates, >= 2 samples below the per-sample minimum); every returning operation is judged "
                      "against its documented shape guarantee; non-trivial if a shape oracle was evaluated on an operation that "
@@ -54,6 +55,9 @@ SMOOTHERS = ["merge_min", "merge_top_bottom", "fixed_size", "optimal_size", "n_p
 def preload(prop):
     launch.quiet()
     import batchie.retrospective  # noqa
+    if prop == "C11":
+        launch.preload_cli()
+        import batchie.cli.prepare_retrospective_simulation  # noqa
 
 
 # ----------------------------------------------------------------------------- plans
@@ -68,11 +72,12 @@ def _gen_prep_screen(w, single_sample_plates, allow_arity=False):
     control = w.choice(["", "control"])
     rows = []
     plate_no = 0
-    bigs = w.random() < 0.05  # one sample with more experiments / plates than any plausible block size
+    bigs = w.random() < 0.06  # one to three samples with more experiments / plates than any plausible block size
+    big_set = set(samples[: w.choice([1, 1, 2, 3])]) if bigs else set()
     for s in samples:
         n_rows = w.choice([1, 2, 3, 4, 5, 6, 8, 12])
         n_pl = w.randint(1, min(4, n_rows))
-        if bigs and s == samples[0]:
+        if s in big_set:
             n_rows = w.choice([40, 70, 130])
             n_pl = w.choice([2, 9, 33])
         plates = [f"pl{plate_no + k}" for k in range(n_pl)]
@@ -193,7 +198,11 @@ def gen_plan(prop, run_seed, tier):
                 if any((t[0], t[1]) == last for t in r[1]):
                     k = next(i for i, t in enumerate(r[1]) if (t[0], t[1]) == last)
                     r[1] = [[last[0], last[1]] if i == k else [ctl, 0.0] for i in range(len(r[1]))]
-    return dict(engine="prepsim", prop=prop, screen=spec, steps=steps, reuse_objects=reuse, mapping_extra=extra)
+    cli = None
+    if prop == "C11" and spec["arity"] == 2 and s.random() < 0.06:
+        cli = dict(f1=s.choice(["0.25", "0.5", "1.0"]), f2=s.choice(["0.25", "0.5", "0.1"]), s1=s.randrange(1000), s2=s.randrange(1000),
+                   died_between_writes=s.random() < 0.6)
+    return dict(engine="prepsim", prop=prop, screen=spec, steps=steps, reuse_objects=reuse, mapping_extra=extra, cli_rerun=cli)
 
 
 # ------------------------------------------------------------------------- execution
@@ -310,10 +319,65 @@ OPNAME = dict(pairwise="PairwisePlateGenerator", permute="PlatePermutationPlateG
               mask="mask_screen", reveal="reveal_plates")
 
 
+def _cli_rerun(plan, log, stats, J):
+    """The preparation PROCESS, re-run into a job directory that an earlier attempt already wrote to (fault
+    leftover.earlier-attempt): attempt 1 ran with another seed / hold-out fraction and died after its first or after both
+    outputs; attempt 2 is the real one.  The pair of archives it leaves must be ITS split: together exactly the experiments
+    of the (combination-filtered) input, each once."""
+    from batchie.data import Screen, filter_dataset_to_treatments_that_appear_in_at_least_one_combo
+    from simkit.kernel import Scratch
+
+    c = plan["cli_rerun"]
+    spec = json.loads(json.dumps(plan["screen"]))
+    for r in spec["rows"]:
+        r[4] = True
+        r[2] = max(r[2], 0.05)
+    with Scratch("prep") as scratch:
+        try:
+            scr = gen.make_screen(spec)
+            src = scratch.file("in.h5")
+            scr.save_h5(src)
+            want = ref.multiset([x[0] for x in _rows(filter_dataset_to_treatments_that_appear_in_at_least_one_combo(scr))])
+        except Exception as e:
+            log.ev("not-constructible", type(e).__name__)
+            return
+        tr, te = scratch.file("training.h5"), scratch.file("test.h5")
+        try:
+            pipe.p_prepare(src, tr, te, args=["--holdout-fraction", c["f1"]], seed=c["s1"], entropy=1)
+        except pipe.HarnessError:
+            raise
+        except Exception as e:
+            log.ev("attempt1-raised", type(e).__name__)
+            return
+        if c["died_between_writes"] and os.path.exists(te):
+            os.remove(te)
+        stats.fault("leftover.earlier-attempt")
+        try:
+            pipe.p_prepare(src, tr, te, args=["--holdout-fraction", c["f2"]], seed=c["s2"], entropy=2)
+            a, b = Screen.load_h5(tr), Screen.load_h5(te)
+        except pipe.HarnessError:
+            raise
+        except Exception as e:
+            J.v("C11.prepare-rerun-raised", type(e).__name__, f"re-running the preparation step into a directory with leftovers raised {e!r}")
+            return
+        stats.oracle_evals += 1
+        stats.steps += 2
+        got = ref.multiset([x[0] for x in _rows(a)] + [x[0] for x in _rows(b)])
+        log.ev("cli-rerun", len(want), len(got), got == want)
+        if got != want:
+            extra, missing = ref.multiset_sub(got, want)
+            J.v("C11.prepare-rerun-not-a-partition", "prepare_retrospective_simulation",
+                f"after a re-run into a directory holding an earlier attempt's output, training + hold-out archives are not the input's "
+                f"experiments: {sum(extra.values())} invented/duplicated, {sum(missing.values())} lost")
+
+
 def execute(prop, plan):
     launch.quiet()
     log, stats = EventLog(), RunStats()
     J = Judge(prop, log, stats)
+    if prop == "C11" and plan.get("cli_rerun"):
+        _cli_rerun(plan, log, stats, J)
+        return dict(digest=log.digest(), violations=J.viol, stats=stats.to_dict(), log_head=log.head)
     try:
         k_extra = plan.get("mapping_extra", 0)
         if k_extra:
